@@ -13,11 +13,13 @@ import unicodedata
 import warnings
 from decimal import Decimal
 
+import translate.literal_regex
 from harness import core
 from harness.core import Atom
 
 ID = "C14"
-LEAN_MODULES = ["JinjaV.Props.C14"]
+LEAN_MODULES = ["JinjaV.Props.C14", "JinjaV.Props.C14Regex"]
+GEN = [translate.literal_regex.gen]
 LEVEL = "proof"
 TRUSTED = [
     "Model/Lex.lean hand scanners for integer_re / float_re / string_re and Model/Literal.lean (int(s, 0), literal_eval on "
@@ -42,8 +44,9 @@ CLAIM = dict(
     text="Theorems (Props/C14.lean): whatever text the integer scanner matches derives from Python's `integer` grammar, "
          "int(text.replace('_',''), 0) as modelled succeeds on it and yields the value the reference assigns to the "
          "spelling with its underscores (int_token_python); whatever text the float scanner matches derives from "
-         "`floatnumber` (float_token_python_partial: the equality of the modelled literal_eval result with the reference "
-         "decimal mantissa*10^exp is NOT proved, it is checked by the run on every spelling and on random floats); hence a "
+         "`floatnumber` and literal_eval(text.replace('_','')) as modelled returns a float whose exact decimal "
+         "mantissa*10^exp is the one the reference assigns to the spelling (float_token_python; IEEE rounding of that "
+         "decimal is Python's on both sides); hence a "
          "number token emitted by the tag rule is never a spelling Python rejects or reads as the other kind "
          "(number_token_python = DESIGN's number_never_longer); for every string of code points < 0x110000 (lone "
          "surrogates included), either quote character and every per-character choice among raw, single-character escape, "
@@ -52,19 +55,23 @@ CLAIM = dict(
          "wherever it stands (string_roundtrip; raw code points must be scalar values because model source text is List "
          "Char), in particular for the spelling repr() chooses, str.isprintable being a parameter (repr_roundtrip); a run of "
          "adjacent string tokens denotes the concatenation (adjacent_concat). The derivative matcher that runs the grammar "
-         "in the driver is proved to decide the grammar (accepts_iff, Lemmas/PyLiteral.lean). Not proved: agreement of the "
-         "escape decoder with the reference escape table on arbitrary bodies (DESIGN's string_escape_spec_partial) - "
-         "correspondence only. Tie: every spelling of length <=4 (quick) / <=5 (thorough) over [0-9_.eExXoObB+-] through "
+         "in the driver is proved to decide the grammar (accepts_iff, Lemmas/PyLiteral.lean). For every body in which no "
+         "escape-position backslash is directly followed by a non-ASCII code point, the backslashreplace/unicode-escape "
+         "pipeline yields exactly what the reference escape table yields - same value, syntax error in the same cases, \\N "
+         "declined on both sides (string_escape_spec_partial; the excluded shape is finding F13, for which Findings/F13.lean "
+         "refutes the full statement in the model). The pattern strings and flags of integer_re, float_re, string_re read "
+         "from lexer.py each run equal the patterns the scanners transcribe (literal_regexes_pinned, Props/C14Regex.lean "
+         "over Gen/LiteralRegex.lean); if not, the run searches at the thorough budget. Tie: every spelling of length <=4 (quick) / <=5 (thorough) over [0-9_.eExXoObB+-] through "
          "the real lexer, Python's parser, the Lean model and the Lean grammar, each accepted one also through "
          "compile_expression and render; random strings over all code point classes (quotes, backslashes, line breaks, "
          "controls, Latin-1, BMP, lone surrogates, astral) in repr, other-quote and mixed spellings with adjacent pieces "
          "through tokens, Environment.parse, compile_expression, render and the Lean model; random escape soups against "
          "eval and the Lean escape table; big integers in four bases with underscores; boundary and random floats in "
-         "several spellings, also negated.",
+         "several spellings, also negated; non-finite constants (inf, -inf, nan by folding) in set/if/for/macro positions.",
     note="Trusted: Lean kernel; hand models of integer_re/float_re/string_re, int(s,0), literal_eval, the two codecs and "
          "repr (tied by correspondence); IEEE rounding and \\N{} assumed. Known findings: F13 ('\\é' gives '\\xe9'); a float "
-         "literal that overflows to inf is compiled to the bare name `inf` (NameError at render unless constant-folded "
-         "into template data).",
+         "literal that overflowed to inf was compiled to the bare name `inf` (NameError; fixed in 28fea2b, non-finite "
+         "constants are still probed in set/if/for/macro-default/arithmetic positions).",
     design_ref="§5 C14",
 )
 
@@ -161,6 +168,13 @@ def e2e_value(env, expr):
         return ("error", type(e).__name__)
 
 
+def e2e_value_data(env, expr, data):
+    try:
+        return env.compile_expression(expr, undefined_to_none=False)(**data)
+    except Exception as e:  # noqa
+        return ("error", type(e).__name__)
+
+
 def e2e_render(env, expr):
     try:
         return env.from_string("{{ " + expr + " }}").render()
@@ -214,8 +228,17 @@ def check_number_e2e(env, res, sp, pv, stats, via="enum"):
                     {"kind": "number", "spelling": sp})
 
 
+def intensified(ctx):
+    """the regexes read from lexer.py differ from the transcribed ones (or cannot be read): search at the thorough budget"""
+    return bool(getattr(ctx, "gen_changed", None) or getattr(ctx, "tie_broken", None) or getattr(ctx, "proof_broken", None))
+
+
+def pick(ctx, quick, thorough):
+    return thorough if intensified(ctx) else ctx.pick(quick, thorough)
+
+
 def run_numbers(ctx, res, env):
-    n = ctx.pick(4, 5)
+    n = pick(ctx, 4, 5)
     rep = core.driver_batch([[Atom("lit-num-enum"), ALPHABET, n, ""]])[0]
     if rep[0] != "ok":
         raise core.HarnessError(f"lit-num-enum: {rep!r:.200}")
@@ -412,8 +435,8 @@ def py_repr_quote(s):
 
 def run_strings(ctx, res, env, jinja2):
     rng = ctx.rng("strings")
-    ncases = ctx.pick(1500, 20000)
-    maxlen = ctx.pick(10, 24)
+    ncases = pick(ctx, 1500, 20000)
+    maxlen = pick(ctx, 10, 24)
     cases = []
     fixed = [[], [39], [34], [39, 34], [92], [92, 92], [92, 39], [10], [13], [13, 10], [0], [0xE9], [0xD800], [0xDC00, 0xD800],
              [0xD83D, 0xDE00], [0x1F600], [0x10FFFF], [0x7F], [0x80], [0xFF], [0x100], [0xFFFF], [0x10000], [92, 0xE9],
@@ -597,7 +620,7 @@ def python_body_value(body, q):
 
 def run_soups(ctx, res, env):
     rng = ctx.rng("soups")
-    ncases = ctx.pick(2500, 40000)
+    ncases = pick(ctx, 2500, 40000)
     reqs, meta = [], []
     stats = {"cases": 0, "python_unavailable": 0, "errors_both": 0, "f13_hits": 0, "model_oom": 0, "named": 0,
              "values_equal": 0}
@@ -608,7 +631,7 @@ def run_soups(ctx, res, env):
     cases = list(fixed)
     for _ in range(ncases):
         q = rng.choice("'\"")
-        items = [it for it in gen_soup(rng, ctx.pick(8, 14)) if it != q and it != "\r"]
+        items = [it for it in gen_soup(rng, pick(ctx, 8, 14)) if it != q and it != "\r"]
         cases.append((q, "".join(items)))
     for q, body in cases:
         body = body.replace("\r", "")
@@ -815,6 +838,47 @@ def run_values(ctx, res, env, jinja2):
     return stats, samples, len(distinct)
 
 
+# non-finite constants (inf from an overflowing literal, -inf, nan by constant folding) in every position --------------
+
+NONFINITE_EXPRS = ["1e999", "-1e999", "1e309", "1e999 - 1e999", "1e999 * 0", "-1e999 + 1e999", "1e999 + y", "y - 1e999",
+                   "1e999 if t else 2", "(1e999 - 1e999) if t else 0", "-1e999 if t else 0", "[1e999, -1e999, 1e999 - 1e999]",
+                   "1e999 > y", "1e999 == 1e999", "(1e999 - 1e999) == (1e999 - 1e999)", "{'a': 1e999}['a'] + y",
+                   "1_0e4_00 * 2", "2E308 / 1e999"]
+NONFINITE_TEMPLATES = ["{%% set x = %s %%}{{ x }}", "{{ %s }}", "{%% if t %%}{{ %s }}{%% endif %%}",
+                       "{%% for v in [%s] %%}{{ v }}{%% endfor %%}", "{%% set x = [%s] %%}{{ x[0] }}",
+                       "{%% macro m(a=%s) %%}{{ a }}{%% endmacro %%}{{ m() }}", "{{ (%s, 1)[0] }}"]
+
+
+def run_nonfinite(ctx, res, env):
+    """the value Python assigns to the expression (eval of the same text: literals, arithmetic, comparison only) must be what
+    the compiled expression / the rendered template yields, whatever position the constant is compiled in"""
+    stats = {"expressions": 0, "templates": 0}
+    data = {"t": True, "y": 1}
+    for e in NONFINITE_EXPRS:
+        want = eval(compile(e, "<c14>", "eval"), {"__builtins__": {}}, dict(data))
+        stats["expressions"] += 1
+        try:
+            got = env.compile_expression(e, undefined_to_none=False)(**data)
+        except Exception as ex:  # noqa
+            got = ("error", type(ex).__name__)
+        if repr(got) != repr(want):
+            key = ("C14:float-literal-inf:NameError" if got == ("error", "NameError") else "C14:float-nonfinite:expression")
+            res.violate(key, f"compile_expression({e!r})() gives {got!r}; Python's value is {want!r}",
+                        {"kind": "nonfinite", "expr": e})
+        for tpl in NONFINITE_TEMPLATES:
+            src = tpl % e
+            stats["templates"] += 1
+            try:
+                out = env.from_string(src).render(**data)
+            except Exception as ex:  # noqa
+                out = ("error", type(ex).__name__)
+            if out != str(want):
+                key = ("C14:float-literal-inf:NameError" if out == ("error", "NameError") else "C14:float-nonfinite:template")
+                res.violate(key, f"{src!r} renders {out!r}; str of Python's value is {str(want)!r}",
+                            {"kind": "nonfinite", "template": src})
+    return stats
+
+
 # ---------------------------------------------------------------------------------------------------------
 
 def run(ctx, res):
@@ -826,14 +890,15 @@ def run(ctx, res):
         sstats, ssamples, sdist = run_strings(ctx, res, env, jinja2)
         ustats, udist = run_soups(ctx, res, env)
         vstats, vsamples, vdist = run_values(ctx, res, env, jinja2)
+        fstats = run_nonfinite(ctx, res, env)
     evaluations = (nstats["spellings"] + nstats["e2e"] * 2 + sstats["cases"] * 4 + ustats["cases"] + vstats["e2e"] * 2
-                   + vstats["negated"])
+                   + vstats["negated"] + fstats["expressions"] + fstats["templates"])
     res.coverage.update({
         "evaluations": evaluations,
         "distinct_nontrivial": ndist + sdist + udist + vdist,
         "exhaustive": False,
-        "exhaustive_part": f"(a) is a complete enumeration of the {nstats['spellings']} spellings of length 1..{ctx.pick(4, 5)}; (b)-(d) are random",
-        "rule": (f"(a) every spelling of length 1..{ctx.pick(4, 5)} over [{ALPHABET}] (exhaustive): real tokeniter+wrap, Python's "
+        "exhaustive_part": f"(a) is a complete enumeration of the {nstats['spellings']} spellings of length 1..{pick(ctx, 4, 5)}; (b)-(d) are random",
+        "rule": (f"(a) every spelling of length 1..{pick(ctx, 4, 5)} over [{ALPHABET}] (exhaustive): real tokeniter+wrap, Python's "
                  "ast.parse, Lean model (tag lexer + int/float conversion) and Lean reference grammar; non-trivial = read as "
                  "one number by at least one of the four; each spelling the lexer reads as a number also goes through "
                  "compile_expression and render. (b) random code point strings over 12 classes in repr / other-quote / "
@@ -848,6 +913,8 @@ def run(ctx, res):
         "strings": sstats,
         "escape_soups": ustats,
         "values": vstats,
+        "nonfinite_constants": fstats,
+        "intensified_search": intensified(ctx),
     })
 
 
@@ -867,6 +934,14 @@ def replay(ctx, case):
             return {"expr": expr, "wanted": c["value"], "tokens": repr(raw_inner(env, expr)),
                     "parse": repr(parse_const(env, jinja2, expr)), "compile_expression": repr(e2e_value(env, expr)),
                     "render": repr(e2e_render(env, expr))}
+        if c["kind"] == "nonfinite":
+            data = {"t": True, "y": 1}
+            if "expr" in c:
+                return {"expr": c["expr"], "compile_expression": repr(e2e_value_data(env, c["expr"], data))}
+            try:
+                return {"template": c["template"], "render": env.from_string(c["template"]).render(**data)}
+            except Exception as ex:  # noqa
+                return {"template": c["template"], "render": "raised " + type(ex).__name__ + ": " + str(ex)}
         body = "".join(map(chr, c["body"]))
         expr = c["quote"] + body + c["quote"]
         return {"expr": expr, "jinja": repr(parse_const(env, jinja2, expr)), "python": repr(python_body_value(body, c["quote"]))}
